@@ -76,7 +76,7 @@ def finalize(results, counters, tier, seed):
     miss = [s for s in ("m-partitioned", "m-part-occ-two-level", "m-merger-dynamic", "m-merger-static", "m-lf-same-rank-different-leaders", "m-multi-rank-intersector", "m-leader-follower", "m-two-finger", "m-skip-ahead", "m-sequencer",
                         "m-three-level", "m-eager", "m-einsums2", "m-einsums3", "accel-gamma",
                         "accel-extensor", "accel-sigma", "accel-outerspace")
-            if counters.get("strata_ok", {}).get(s, 0) == 0]
+            if counters.get("strata_compiled", {}).get(s, 0) == 0]
     if miss:
         inc.append("strata never executed: %r" % miss)
     if mon.get("ev-intersection", 0) == 0:
